@@ -3,6 +3,7 @@ package main
 import (
 	"fmt"
 	"os"
+	"runtime/debug"
 	"strconv"
 	"strings"
 	"time"
@@ -166,7 +167,17 @@ func uciCommand(u *uci.UciHandler, line string) (out string, panicked bool, hung
 		defer func() {
 			if r := recover(); r != nil {
 				panicked = true
-				out = fmt.Sprint(r)
+				st := string(debug.Stack())
+				var frames []string
+				for _, l := range strings.Split(st, "\n") {
+					if strings.Contains(l, "/internal/") && strings.Contains(l, ".go:") {
+						frames = append(frames, strings.TrimSpace(l))
+					}
+				}
+				if len(frames) > 6 {
+					frames = frames[:6]
+				}
+				out = fmt.Sprint(r) + " at " + strings.Join(frames, " <- ")
 			}
 			close(done)
 		}()
@@ -251,9 +262,9 @@ func c16Uci(args []string) int {
 				continue
 			}
 		}
-		_, pan, hung := uciCommand(u, line)
+		pout, pan, hung := uciCommand(u, line)
 		if pan {
-			rep.Violate("uci-panic", in, "panic while handling the line")
+			rep.Violate("uci-panic", in, "panic while handling the line: "+pout)
 			u = uci.NewUciHandler()
 			continue
 		}
